@@ -64,7 +64,13 @@ let () =
          let fam = int_of_string (String.sub line 0 sp) in
          let c = parse line sp in
          let mon = match run_monitor (z_of_int fam) c with
-           | Some true -> " mon=1" | Some false -> " mon=0" | None -> " mon=-" in
+           | Some true -> " mon=1"
+           | Some false ->
+             let b = Buffer.create 64 in
+             print_sx b (run_explain (z_of_int fam) c);
+             if Buffer.length b > 2 then Printf.printf "# %d explain %s\n" !lineno (Buffer.contents b);
+             " mon=0"
+           | None -> " mon=-" in
          match run_case (z_of_int fam) c with
          | OkCase -> incr nok; Printf.printf "%d ok%s\n" !lineno mon
          | Mismatch (code, e) ->
